@@ -146,6 +146,20 @@ mixed failing(mixed v, int how) {
   }
   return 0;
 }
+// range assignments in statement context that replace refcounted elements by the elements of a temporary (same and other lengths)
+mixed scratch;
+void rangeset(mixed v) {
+  mixed *t = ({ ({ v }), ({ v, v }), v, "s" + sizeof(slots), ([ "k": v ]) });
+  mixed *u = ({ v, ({ v }) });
+  t[0..1] = ({ ({ v, 1 }), "r" + sizeof(slots) });
+  t[1..2] = ({ ([ "k": v ]), ({ }) });
+  t[2..3] = ({ v });
+  t[0..0] = u;
+  u[0..1] = t[0..1];
+  scratch = ({ t, u });
+  scratch[0][0..1] = ({ ({ v }), ({ v }) });
+  scratch = 0;
+}
 // one driver call: ops separated by ';', fields by ','. Returns the reads made: ({ ({ h, ident }), ... })
 mixed run(string script) {
   mixed *out = ({ });
@@ -162,6 +176,7 @@ mixed run(string script) {
     case "dest": dest(to_int(f[1])); break;
     case "cerr": e = catch(failing(slots[to_int(f[1])], to_int(f[2]))); out += ({ ({ -1, e ? 1 : 0 }) }); break;
     case "uerr": failing(slots[to_int(f[1])], to_int(f[2])); break;
+    case "rng": rangeset(slots[to_int(f[1])]); break;
     }
   }
   return out;
@@ -212,7 +227,7 @@ def holder_cases(draw):
     feats = set()
     creation = []
     for _ in range(nops):
-        kind = draw(st.sampled_from(["mk", "mk", "hold", "hold", "hold", "read", "read", "drop", "rel", "dest", "cerr", "uerr", "call", "inject", "bigshare"]))
+        kind = draw(st.sampled_from(["mk", "mk", "hold", "hold", "hold", "read", "read", "drop", "rel", "dest", "cerr", "uerr", "call", "inject", "bigshare", "rng"]))
         if kind == "mk" or not slots:
             s = draw(st.integers(0, 7))
             ntag[0] += 1
@@ -265,6 +280,9 @@ def holder_cases(draw):
                 feats.add("destruct-holder")
             creation.remove(h)
             del holders[h]
+        elif kind == "rng" and slots:
+            cur.append("rng,%d" % draw(st.sampled_from(sorted(slots))))
+            feats.add("range-assign")
         elif kind == "cerr" and slots:
             cur.append("cerr,%d,%d" % (draw(st.sampled_from(sorted(slots))), draw(st.integers(0, 5))))
             feats.add("error-ending")
